@@ -30,8 +30,155 @@ fn doc() -> CoreDocument {
   CoreDocument::from_json(&format!(r#"{{"id":"{did}","verificationMethod":[{}],{}}}"#, jwk_method(did, "gp"), rels.join(","))).unwrap()
 }
 
+// ------------------------------------------------------------------------------------------------
+// C04 as a BOUNDED exhaustive check: every sequence of up to 4 checked mutations over a small universe, from three
+// starting documents, against an abstract set-of-entries model written independently of the code
+// ------------------------------------------------------------------------------------------------
+#[derive(Clone, PartialEq, Debug)]
+struct Model {
+  /// general-purpose methods (fragments)
+  gp: Vec<String>,
+  /// per relationship (index into RELS2): entries (fragment, embedded?)
+  rel: [Vec<(String, bool)>; 2],
+  services: Vec<String>,
+}
+const RELS2: [MethodRelationship; 2] = [MethodRelationship::Authentication, MethodRelationship::KeyAgreement];
+const DID: &str = "did:example:doc";
+const FRAGS: [&str; 2] = ["a", "b"];
+#[derive(Clone, Copy, Debug)]
+enum Op { InsGp(usize), InsEmb(usize, usize), Rem(usize), Attach(usize, usize), Detach(usize, usize), InsSvc(usize), RemSvc(usize) }
+fn all_ops() -> Vec<Op> {
+  let mut v = vec![];
+  for f in 0..FRAGS.len() { v.push(Op::InsGp(f)); v.push(Op::Rem(f)); v.push(Op::InsSvc(f)); v.push(Op::RemSvc(f));
+    for r in 0..RELS2.len() { v.push(Op::InsEmb(f, r)); v.push(Op::Attach(f, r)); v.push(Op::Detach(f, r)); } }
+  v
+}
+impl Model {
+  fn mentions(&self, f: &str) -> bool { self.gp.iter().any(|x| x == f) || self.rel.iter().any(|r| r.iter().any(|(x, _)| x == f)) }
+  fn is_embedded(&self, f: &str) -> bool { self.rel.iter().any(|r| r.iter().any(|(x, e)| x == f && *e)) }
+  /// the abstract meaning of each checked mutation: Some(new model) when it must be accepted, None when it must be refused
+  fn apply(&self, op: Op) -> Option<Model> {
+    let mut m = self.clone();
+    match op {
+      Op::InsGp(f) => { let f = FRAGS[f]; if self.mentions(f) || self.services.iter().any(|x| x == f) { return None; } m.gp.push(f.into()); }
+      Op::InsEmb(f, r) => { let f = FRAGS[f]; if self.mentions(f) || self.services.iter().any(|x| x == f) { return None; } m.rel[r].push((f.into(), true)); }
+      Op::Rem(f) => { let f = FRAGS[f]; if !self.mentions(f) { return None; } m.gp.retain(|x| x != f); for r in m.rel.iter_mut() { r.retain(|(x, _)| x != f); } }
+      Op::Attach(f, r) => { let f = FRAGS[f]; if !self.gp.iter().any(|x| x == f) { return None; } if !m.rel[r].iter().any(|(x, _)| x == f) { m.rel[r].push((f.into(), false)); } }
+      Op::Detach(f, r) => { let f = FRAGS[f]; if self.is_embedded(f) || !self.mentions(f) { return None; } m.rel[r].retain(|(x, _)| x != f); }
+      Op::InsSvc(f) => { let f = FRAGS[f]; if self.mentions(f) || self.services.iter().any(|x| x == f) { return None; } m.services.push(f.into()); }
+      Op::RemSvc(f) => { let f = FRAGS[f]; if !self.services.iter().any(|x| x == f) { return None; } m.services.retain(|x| x != f); }
+    }
+    Some(m)
+  }
+}
+fn vm(frag: &str) -> identity_verification::VerificationMethod { identity_verification::VerificationMethod::from_json(&jwk_method(DID, frag)).unwrap() }
+fn svc(frag: &str) -> identity_document::service::Service {
+  identity_document::service::Service::from_json(&format!(r#"{{"id":"{DID}#{frag}","type":"T","serviceEndpoint":"https://example.com/"}}"#)).unwrap()
+}
+fn url(frag: &str) -> DIDUrl { DIDUrl::parse(format!("{DID}#{frag}")).unwrap() }
+/// what the real document holds, read through its public accessors, in the model's terms
+fn observe(d: &CoreDocument) -> Model {
+  let frag = |u: &DIDUrl| u.fragment().unwrap_or("").to_owned();
+  let rel = |r: MethodRelationship| -> Vec<(String, bool)> {
+    let set = match r { MethodRelationship::Authentication => d.authentication(), _ => d.key_agreement() };
+    set.iter().map(|m| (frag(m.id()), matches!(m, identity_verification::MethodRef::Embed(_)))).collect()
+  };
+  Model { gp: d.verification_method().iter().map(|m| frag(m.id())).collect(), rel: [rel(RELS2[0]), rel(RELS2[1])], services: d.service().iter().map(|s| frag(s.id())).collect() }
+}
+fn same_entries(a: &Model, b: &Model) -> bool {
+  let sort = |v: &Vec<String>| { let mut v = v.clone(); v.sort(); v };
+  let sortp = |v: &Vec<(String, bool)>| { let mut v = v.clone(); v.sort(); v };
+  sort(&a.gp) == sort(&b.gp) && sort(&a.services) == sort(&b.services) && (0..2).all(|i| sortp(&a.rel[i]) == sortp(&b.rel[i]))
+}
+/// the three clauses of the invariant, on the observed entries
+fn invariant(m: &Model) -> Result<(), String> {
+  let mut embedded: Vec<&String> = m.rel.iter().flat_map(|r| r.iter().filter(|(_, e)| *e).map(|(f, _)| f)).collect();
+  let n = embedded.len(); embedded.sort(); embedded.dedup();
+  if embedded.len() != n { return Err(format!("two embedded methods with one id: {m:?}")); }
+  for r in &m.rel { for (f, e) in r { if !*e && embedded.contains(&f) { return Err(format!("a reference aliases the embedded method #{f}: {m:?}")); } } }
+  let mut gp = m.gp.clone(); gp.sort(); gp.dedup(); if gp.len() != m.gp.len() { return Err(format!("two general-purpose methods with one id: {m:?}")); }
+  for f in &m.gp { if embedded.contains(&f) { return Err(format!("#{f} is both general-purpose and embedded: {m:?}")); } }
+  for s in &m.services { if m.gp.contains(s) || m.rel.iter().any(|r| r.iter().any(|(f, _)| f == s)) { return Err(format!("service id #{s} equals a method id: {m:?}")); } }
+  Ok(())
+}
+fn apply_real(d: &mut CoreDocument, op: Op) -> bool {
+  match op {
+    Op::InsGp(f) => d.insert_method(vm(FRAGS[f]), MethodScope::VerificationMethod).is_ok(),
+    Op::InsEmb(f, r) => d.insert_method(vm(FRAGS[f]), MethodScope::VerificationRelationship(RELS2[r])).is_ok(),
+    Op::Rem(f) => d.remove_method(&url(FRAGS[f])).is_some(),
+    Op::Attach(f, r) => d.attach_method_relationship(&url(FRAGS[f]), RELS2[r]).is_ok(),
+    Op::Detach(f, r) => d.detach_method_relationship(&url(FRAGS[f]), RELS2[r]).is_ok(),
+    Op::InsSvc(f) => d.insert_service(svc(FRAGS[f])).is_ok(),
+    Op::RemSvc(f) => d.remove_service(&url(FRAGS[f])).is_some(),
+  }
+}
+fn check_state(d: &CoreDocument, m: &Model, trail: &str) -> Result<(), String> {
+  use identity_core::convert::ToJson;
+  let seen = observe(d);
+  invariant(&seen).map_err(|e| format!("{trail}: {e}"))?;
+  if !same_entries(&seen, m) { return Err(format!("{trail}: document holds {seen:?}, the model predicts {m:?}")); }
+  let json = d.to_json().map_err(|e| format!("{trail}: to_json {e}"))?;
+  match CoreDocument::from_json(&json) { Ok(back) if back == *d => {}, Ok(_) => return Err(format!("{trail}: JSON round trip gives a different document: {json}")), Err(e) => return Err(format!("{trail}: own JSON does not deserialise ({e}): {json}")) }
+  // resolution: by fragment and by full id, unscoped and scoped, against the model
+  for f in FRAGS {
+    let expect_method = m.mentions(f);
+    for q in [format!("#{f}"), format!("{DID}#{f}")] {
+      if d.resolve_method(q.as_str(), None).is_some() != expect_method { return Err(format!("{trail}: resolve_method({q}) found={} but the model says {expect_method}", !expect_method)); }
+      if d.resolve_method(q.as_str(), Some(MethodScope::VerificationMethod)).is_some() != m.gp.iter().any(|x| x == f) { return Err(format!("{trail}: resolve_method({q}, VerificationMethod) disagrees with the model")); }
+      for r in 0..2 {
+        let got = d.resolve_method(q.as_str(), Some(MethodScope::VerificationRelationship(RELS2[r])));
+        if got.is_some() != m.rel[r].iter().any(|(x, _)| x == f) { return Err(format!("{trail}: resolve_method({q}, {:?}) disagrees with the model", RELS2[r])); }
+        if let Some(g) = got { if g.id().fragment() != Some(f) { return Err(format!("{trail}: resolve_method({q}) returned {}", g.id())); } }
+      }
+      if d.resolve_service(q.as_str()).is_some() != m.services.iter().any(|x| x == f) { return Err(format!("{trail}: resolve_service({q}) disagrees with the model")); }
+    }
+    if d.resolve_method(format!("did:example:other#{f}").as_str(), None).is_some() { return Err(format!("{trail}: a full id of another DID resolved")); }
+  }
+  Ok(())
+}
+fn mutation_histories_depth4() -> Result<(), String> {
+  let starts: Vec<(&str, CoreDocument)> = vec![
+    ("empty", CoreDocument::from_json(&format!(r#"{{"id":"{DID}"}}"#)).unwrap()),
+    ("built", CoreDocument::builder(Default::default()).id(identity_did::CoreDID::parse(DID).unwrap()).verification_method(vm("a")).authentication(url("a")).build().unwrap()),
+    ("deserialised", CoreDocument::from_json(&format!(r#"{{"id":"{DID}","keyAgreement":[{}],"service":[{{"id":"{DID}#b","type":"T","serviceEndpoint":"https://example.com/"}}]}}"#, jwk_method(DID, "a"))).unwrap()),
+  ];
+  let ops = all_ops();
+  let mut runs = 0u32;
+  for (name, start) in &starts {
+    let m0 = observe(start);
+    check_state(start, &m0, name)?;
+    // depth-first over all sequences of length <= 4
+    let mut stack: Vec<(CoreDocument, Model, String, usize)> = vec![(start.clone(), m0, name.to_string(), 0)];
+    while let Some((d, m, trail, depth)) = stack.pop() {
+      if depth == 4 { continue; }
+      for &op in &ops {
+        let mut d2 = d.clone();
+        let before = d.clone();
+        let accepted = apply_real(&mut d2, op);
+        let t2 = format!("{trail} > {op:?}");
+        runs += 1;
+        match m.apply(op) {
+          Some(m2) => {
+            if !accepted { return Err(format!("{t2}: refused, the model accepts it")); }
+            check_state(&d2, &m2, &t2)?;
+            stack.push((d2, m2, t2, depth + 1));
+          }
+          None => {
+            // remove_method / remove_service on an absent id report "nothing removed": also a refusal
+            if accepted { return Err(format!("{t2}: accepted, the model refuses it (state {m:?})")); }
+            if d2 != before { return Err(format!("{t2}: refused but the document changed")); }
+          }
+        }
+      }
+    }
+  }
+  if runs < 20_000 { return Err(format!("only {runs} operations explored")); }
+  Ok(())
+}
+
 fn main() {
   std::panic::set_hook(Box::new(|_| {}));
+  w("cd_mutation_histories_depth4_against_model", mutation_histories_depth4);
   w("cd_resolve_scope_exact", || {
     let d = doc();
     for (rel, name) in RELS { for (rel2, name2) in RELS {
